@@ -167,3 +167,32 @@ Example C05_kmp_short_nodup_bounded :
                     | Err _ => false
                     end) (flat_map exChains [3; 4; 5; 6; 7]%nat) = true.
 Proof. vm_compute. reflexivity. Qed.
+
+(** ** the routing premise discharged from C02 (Snap/ProofsJoinC05.v, from C02_routing_edges): for every grid with a
+       positive resolution whose stored extent covers its computed pixels ([RootCovers], true of FromTileMatrixSet)
+       and every requested level within the index.  The kmp premise (a kmpDeduplicate output of fewer than
+       three vertices is repeat-free) remains explicit. *)
+From Texel Require Import Index.ProofsRouting Snap.ProofsJoinC05.
+
+Theorem C05_routing_premise_discharged : forall g P hs L r0 r', 0 < gres g -> RootCovers g ->
+  insertPolygon g P = Ok hs -> (L <= gdeep g)%nat -> In r0 P -> (r' = r0 \/ r' = rev r0) ->
+  routing_ok g (hotLevels g hs) L r'.
+Proof. exact routing_ok_from_C02. Qed.
+Print Assumptions C05_routing_premise_discharged.
+
+Theorem C05_rings_well_formed_routing_discharged : forall g P levels cfg r,
+  (forall r r', no_adj_dup r -> kmpDeduplicate r = Ok r' -> (length r' < 3)%nat -> NoDup r') ->
+  0 < gres g -> RootCovers g -> (forall L, In L levels -> (L <= gdeep g)%nat) ->
+  snapPolygon g P levels cfg = Ok r ->
+  forall L ps poly x, In (L, ps) r -> In poly ps -> In x poly ->
+    NoDup x /\ ((2 <= length x)%nat -> hd dp x <> last x dp /\ no_adj_dup x).
+Proof. exact snap_rings_well_formed_closed. Qed.
+Print Assumptions C05_rings_well_formed_routing_discharged.
+
+(** non-vacuity: the example grid and levels satisfy the new hypotheses *)
+Example C05_discharged_hypotheses_hold :
+  0 < gres exG /\ RootCovers exG /\ (forall L, In L exLevels -> (L <= gdeep exG)%nat).
+Proof.
+  split; [reflexivity |]. split; [vm_compute; repeat split; discriminate |].
+  intros L H. vm_compute in H. cbn [gdeep exG]. repeat (destruct H as [<- | H]; [repeat constructor |]). destruct H.
+Qed.
